@@ -69,9 +69,12 @@ def view_key(v) -> str:
     return json.dumps([sorted(map(tuple, v["files"])), sorted(map(tuple, v["refs"])), v["mem"], v["cwd"]], sort_keys=True)
 
 
-def plan_paths(raw_edges):
+def plan_paths(raw_edges, avoid=frozenset(), only=None):
     """Deduplicate TLC's transitions on the view (files, refs, mem, cwd) and give every distinct transition one history:
-    the BFS-shortest history to its source state followed by the transition itself."""
+    the BFS-shortest history to its source state followed by the transition itself.  `avoid`: (src, act) keys of transitions that
+    must not be used as PREFIX steps (they mismatched on the real code: a history through them cannot examine what follows);
+    `only`: restrict the returned histories to these (src, act) keys; transitions whose source is unreachable without the avoided
+    ones are left out."""
     edges = {}
     for e in raw_edges:
         k = (view_key(e["pre"]), json.dumps(e["act"], sort_keys=True))
@@ -86,12 +89,18 @@ def plan_paths(raw_edges):
     while queue:
         s = queue.pop(0)
         for e in out.get(s, ()):
+            if (e["src"], json.dumps(e["act"], sort_keys=True)) in avoid:
+                continue
             if e["dst"] not in parent:
                 parent[e["dst"]] = (s, e)
                 queue.append(e["dst"])
     paths = []
     for e in edges.values():
+        if only is not None and (e["src"], json.dumps(e["act"], sort_keys=True)) not in only:
+            continue
         if e["src"] not in parent:
+            if avoid:
+                continue
             raise MachineryError("transition whose source state is unreachable from the initial state in the emitted graph")
         prefix = []
         s = e["src"]
@@ -300,17 +309,49 @@ def run(tier: str, replay=None) -> int:
             chk.exhaustive = False
             chk.extra["graphs"][-1]["replayed_transitions"] = len(order)
         jobs = [(c["family"], [(i, paths[i]) for i in ch]) for ch in _chunks(order, procs * 3)]
+        ekey = lambda e: (e["src"], json.dumps(e["act"], sort_keys=True))
+        bad, cut = set(), set()
         for part in _pool_map(_history_worker, jobs, procs):
             for idx, viols, steps, skipped in part:
                 path = paths[idx]
                 chk.evaluations += steps
                 chk.traces += 1
                 if skipped:
-                    chk.skip(f"{c['name']}: steps not executed because an earlier step of the history mismatched", skipped)
+                    # the history was cut at a prefix step that mismatched (a known finding, usually): its last transition is re-examined
+                    # below at the end of a history that avoids the mismatching transitions
+                    bad.add(ekey(path[steps - 1]))
+                    cut.add(ekey(path[-1]))
                 if any(e["act"]["op"] in ("MoveFolder", "ChangeCwd") for e in path):
                     chk.nontriv("h:" + c["family"] + json.dumps([e["act"] for e in path], sort_keys=True))
                 for key, what in viols:
                     col.add(key, what, {"engine": "c17-history", "family": c["family"], "path": path})
+        re_done = 0
+        for _round in range(6):
+            if not cut:
+                break
+            paths2, _ = plan_paths(raw, avoid=frozenset(bad), only=cut)
+            unreachable = len(cut) - len(paths2)
+            if unreachable:
+                chk.skip(f"{c['name']}: transitions whose source state is reachable only through a mismatching transition (known finding)", unreachable)
+            if not paths2:
+                cut = set()
+                break
+            jobs2 = [(c["family"], [(i, paths2[i]) for i in ch]) for ch in _chunks(list(range(len(paths2))), procs * 3)]
+            cut = set()
+            for part in _pool_map(_history_worker, jobs2, procs):
+                for idx, viols, steps, skipped in part:
+                    path = paths2[idx]
+                    chk.evaluations += steps
+                    if skipped:
+                        bad.add(ekey(path[steps - 1]))
+                        cut.add(ekey(path[-1]))
+                        continue          # the mismatch of the prefix step is already reported by that transition's own history
+                    re_done += 1
+                    for key, what in viols:
+                        col.add(key, what, {"engine": "c17-history", "family": c["family"], "path": path})
+        if cut:
+            chk.skip(f"{c['name']}: transitions not examined after 6 rounds of alternative histories", len(cut))
+        chk.extra["graphs"][-1]["re_examined_on_alternative_histories"] = re_done
         for i in (0, len(paths) // 2, len(paths) - 1):
             chk.sample({"config": c["name"], "history": [p["act"] for p in paths[i]], "specified_refs_after": paths[i][-1]["post"]["refs"][:4],
                         "specified_loaded": paths[i][-1]["loaded"]})
